@@ -335,8 +335,10 @@ class SecureField(Field):
                 raise ValueError("invalid ciphertext")
 
             try:
-                ciphertext = base64.b64decode(ciphertext_b64)
-            except binascii.Error as err:
+                # strictly: by default characters outside the alphabet are skipped and whatever
+                # follows the first complete padding is ignored
+                ciphertext = base64.b64decode(ciphertext_b64, validate=True)
+            except (binascii.Error, ValueError) as err:
                 raise ValueError("invalid ciphertext") from err
 
             try:
